@@ -186,12 +186,19 @@ func importResource(source map[string]any, target map[string]any, key string) er
 	from := source[key]
 	if from != nil {
 		var to map[string]any
-		if v, ok := target[key]; ok {
-			to = v.(map[string]any)
+		if v, ok := target[key]; ok && v != nil {
+			to, ok = v.(map[string]any)
+			if !ok {
+				return fmt.Errorf("%s must be a mapping", key)
+			}
 		} else {
 			to = map[string]any{}
 		}
-		for name, a := range from.(map[string]any) {
+		resources, ok := from.(map[string]any)
+		if !ok {
+			return fmt.Errorf("%s must be a mapping", key)
+		}
+		for name, a := range resources {
 			if conflict, ok := to[name]; ok {
 				if reflect.DeepEqual(a, conflict) {
 					continue
